@@ -209,21 +209,33 @@ func (d *DFA) SearchAt(cache *DFACache, haystack []byte, at int) int {
 // requires the match to begin exactly at position 'at' (no implicit (?s:.)*? prefix).
 // This is used by ReverseSuffix after finding match start via reverse DFA.
 func (d *DFA) SearchAtAnchored(cache *DFACache, haystack []byte, at int) int {
+	end, _ := d.SearchAtAnchoredStopAt(cache, haystack, at)
+	return end
+}
+
+// SearchAtAnchoredStopAt is SearchAtAnchored that also reports where the scan
+// stopped: the search examined haystack[at:stop] before it could decide (the DFA
+// died, or the input ended). Callers that verify many candidate positions use
+// stop-at to bound their total work: when failed scans keep running far past the
+// following candidates, the same bytes are read again and again (O(n^2)), and
+// the caller should switch to a single unanchored search instead.
+// (Rust regex-automata: meta/stopat.rs, try_search_half_fwd_stopat.)
+func (d *DFA) SearchAtAnchoredStopAt(cache *DFACache, haystack []byte, at int) (end, stop int) {
 	if at > len(haystack) {
-		return -1
+		return -1, len(haystack)
 	}
 
 	if at == len(haystack) {
 		if d.matchesEmptyAt(haystack, at) {
-			return at
+			return at, at
 		}
-		return -1
+		return -1, at
 	}
 
 	// Get ANCHORED start state (requires match to start exactly at 'at')
 	currentState := d.getStartState(cache, haystack, at, true)
 	if currentState == nil {
-		return d.nfaFallbackAnchored(haystack, at)
+		return d.nfaFallbackAnchored(haystack, at), len(haystack)
 	}
 
 	lastMatch := -1
@@ -249,21 +261,21 @@ func (d *DFA) SearchAtAnchored(cache *DFACache, haystack []byte, at int) int {
 		case InvalidState:
 			currentState = cache.getState(sid)
 			if currentState == nil {
-				return d.nfaFallbackAnchored(haystack, at)
+				return d.nfaFallbackAnchored(haystack, at), len(haystack)
 			}
 			nextState, err := d.determinize(cache, currentState, b)
 			if err != nil {
-				return d.nfaFallbackAnchored(haystack, at)
+				return d.nfaFallbackAnchored(haystack, at), len(haystack)
 			}
 			if nextState == nil {
-				return lastMatch
+				return lastMatch, pos + 1
 			}
 			sid = nextState.id
 			ft = cache.flatTrans
 			ftLen = len(ft)
 
 		case DeadState:
-			return lastMatch
+			return lastMatch, pos + 1
 
 		default:
 			sid = nextID
@@ -284,10 +296,10 @@ func (d *DFA) SearchAtAnchored(cache *DFACache, haystack []byte, at int) int {
 	// reported yet (no more bytes to trigger the delay).
 	eoi := cache.getState(sid)
 	if eoi != nil && d.checkEOIMatch(eoi) {
-		return len(haystack)
+		return len(haystack), len(haystack)
 	}
 
-	return lastMatch
+	return lastMatch, len(haystack)
 }
 
 // SearchFirstAt finds the end of the FIRST match (leftmost-first semantics).
